@@ -14,9 +14,21 @@ EXEMPT_WRITERS = {
 }
 
 
-def _is_stamped(t):
+def _is_stamped(t, path=None):
+    """with_timestamp(x) - or, when the stamping helper is a function a refactoring introduced (read inlined), its two
+    arms: x.with_high_tag(global_epoch()) resp. x itself on a path that found x null"""
     t = strip(t)
-    return isinstance(t, tuple) and t[0] == "call" and norm(t[1]).endswith("::with_timestamp")
+    if isinstance(t, tuple) and t[0] == "call" and norm(t[1]).endswith("::with_timestamp"):
+        return True
+    if isinstance(t, tuple) and t[0] == "call" and norm(t[1]) == "ebr_impl::pointers::Tagged::with_high_tag" and len(t[2]) == 2 \
+            and calls_in(t[2][1], "ebr_impl::default::global_epoch"):
+        return True
+    if path is not None:
+        for e in path.events:
+            if e.kind == "cond" and isinstance(e.term, tuple) and e.term[0] == "call" and norm(e.term[1]).endswith("::is_null") \
+                    and e.value == 1 and strip(e.term[2][0]) == t:
+                return True
+    return False
 
 
 def rule_link_stamp(ctx):
@@ -54,15 +66,22 @@ def rule_link_stamp(ctx):
                 if name in EXEMPT_WRITERS:
                     r.instance("%s: %s exempt (%s)" % (name, op, EXEMPT_WRITERS[name]), True)
                     continue
-                ok = _is_stamped(written)
+                ok = _is_stamped(written, p)
                 r.instance("%s: %s writes %s" % (name.split("::")[-1], op, "with_timestamp(..)" if ok else show(written)[:60]), ok)
                 if not ok:
                     r.violate(name, "write:" + op, "writes a pointer into the shared link without with_timestamp(): the "
                               "cascade cannot know how recently a reader may have loaded it", e.loc())
-    # with_timestamp itself
-    wb = prog.body(WITH_TS)
-    r.functions.add(WITH_TS)
-    for p in ctx.ex.paths(wb):
+    # with_timestamp itself (when it has become a helper that is read inlined, its two arms were judged at every write)
+    wb = prog.bodies.get(WITH_TS)
+    if wb is None:
+        helpers = [h for h in prog.auto_inline() if prog.bodies[h].file().endswith("strong.rs") and
+                   any(norm(c.target or "") == "ebr_impl::pointers::Tagged::with_high_tag" for (_, _, c) in prog.bodies[h].calls())]
+        r.instance("stamping helper read inlined: %s" % sorted(helpers), bool(helpers))
+        if not helpers:
+            raise AnalysisError("anchor missing: no MIR body named `%s` and no helper that stamps" % WITH_TS)
+    else:
+        r.functions.add(WITH_TS)
+    for p in (ctx.ex.paths(wb) if wb is not None else []):
         if p.exit[0] != "return":
             continue
         nullc = [e for e in p.events if e.kind == "cond" and isinstance(e.term, tuple) and e.term[0] == "call"
@@ -247,6 +266,9 @@ def _word_ok(prog, body, t, allow_ts, allow_tag):
         nt = norm(t[1])
         if nt.endswith("::with_timestamp") and allow_ts and t[2]:
             return _word_ok(prog, body, t[2][0], False, allow_tag)
+        if nt == "ebr_impl::pointers::Tagged::with_high_tag" and allow_ts and len(t[2]) == 2 and \
+                calls_in(t[2][1], "ebr_impl::default::global_epoch"):
+            return _word_ok(prog, body, t[2][0], False, allow_tag)      # the stamping helper read inlined
         if nt == "ebr_impl::pointers::Tagged::with_tag" and allow_tag and len(t[2]) == 2:
             tag = strip(t[2][1])
             return isinstance(tag, tuple) and tag[0] == "arg" and _word_base(prog, body, t[2][0])
